@@ -334,3 +334,149 @@ func init() {
 		return fmt.Sprintf("Definition %s : list (string * string) :=\n  [%s].", it.Coq, strings.Join(rows, ";\n   ")), nil
 	}
 }
+
+// ---- C25 / C37: the gorilla/mux routing table built by LnS -----------------------------------------------
+
+func init() {
+	// mux_table: every statement of a function that builds the routing table, in source order, as
+	//   (kind, (router variable, (a, b)))
+	//   ("sub",   (X, (Y, "prefix|M1,M2")))   X := Y.PathPrefix("prefix").Methods("M1","M2").Subrouter()
+	//   ("use",   (X, (middleware, "")))        X.Use(r.middleware)
+	//   ("route", (X, (pattern, handler)))      X.HandleFunc(pattern, r.handler) / X.Handle(pattern, otelhttp.NewHandler(http.HandlerFunc(r.handler), ..))
+	//   ("prefix",(X, (prefix, handler)))       X.PathPrefix(prefix).HandlerFunc(r.handler)
+	//   ("opt",   (X, (option, "")))            X.UseEncodedPath() ...
+	//   ("call",  (X, (method, "")))            r.method(X)  - another function that registers routes on X
+	customKinds["mux_table"] = func(it Item) (string, error) {
+		p, err := loadPkg(it.Pkg)
+		if err != nil {
+			return "", err
+		}
+		fd := findFunc(p, it.Func)
+		if fd == nil {
+			return "", fmt.Errorf("function %s not found in %s", it.Func, it.Pkg)
+		}
+		routers := map[string]bool{}
+		if v, ok := it.Extra["root"].(string); ok && v != "" {
+			routers[v] = true
+		}
+		var rows []string
+		row := func(kind, x, a, b string) {
+			rows = append(rows, fmt.Sprintf("(%s, (%s, (%s, %s)))", coqStr(kind), coqStr(x), coqStr(a), coqStr(b)))
+		}
+		// flatten a call chain  X.A(a..).B(b..).C(c..)  into receiver X and [(A,args),(B,args),(C,args)]
+		type link struct {
+			name string
+			args []ast.Expr
+		}
+		var flatten func(e ast.Expr) (string, []link)
+		flatten = func(e ast.Expr) (string, []link) {
+			ce, ok := e.(*ast.CallExpr)
+			if !ok {
+				return nodeText(p, e), nil
+			}
+			se, ok := ce.Fun.(*ast.SelectorExpr)
+			if !ok {
+				return nodeText(p, e), nil
+			}
+			recv, links := flatten(se.X)
+			return recv, append(links, link{se.Sel.Name, ce.Args})
+		}
+		str := func(e ast.Expr) string { return unquote(nodeText(p, e)) }
+		handlerName := func(e ast.Expr) string {
+			t := nodeText(p, e)
+			if m := regexp.MustCompile(`http\.HandlerFunc\(r\.(\w+)\)`).FindStringSubmatch(t); m != nil {
+				return m[1]
+			}
+			return strings.TrimPrefix(t, "r.")
+		}
+		for _, s := range fd.Body.List {
+			var e ast.Expr
+			lhs := ""
+			switch x := s.(type) {
+			case *ast.AssignStmt:
+				if len(x.Lhs) == 1 && len(x.Rhs) == 1 {
+					lhs, e = nodeText(p, x.Lhs[0]), x.Rhs[0]
+				}
+			case *ast.ExprStmt:
+				e = x.X
+			}
+			if e == nil {
+				continue
+			}
+			recv, links := flatten(e)
+			if lhs != "" && len(links) == 1 && links[0].name == "NewRouter" {
+				routers[lhs] = true
+				continue
+			}
+			if recv == "r" && len(links) == 1 && len(links[0].args) == 1 && routers[nodeText(p, links[0].args[0])] {
+				row("call", nodeText(p, links[0].args[0]), links[0].name, "")
+				continue
+			}
+			if !routers[recv] || len(links) == 0 {
+				continue
+			}
+			last := links[len(links)-1]
+			switch {
+			case last.name == "Subrouter" && lhs != "":
+				prefix, methods := "", []string{}
+				for _, l := range links {
+					switch l.name {
+					case "PathPrefix":
+						prefix = str(l.args[0])
+					case "Methods":
+						for _, a := range l.args {
+							methods = append(methods, str(a))
+						}
+					}
+				}
+				routers[lhs] = true
+				row("sub", lhs, recv, prefix+"|"+strings.Join(methods, ","))
+			case last.name == "Use" && len(links) == 1:
+				row("use", recv, handlerName(last.args[0]), "")
+			case links[0].name == "HandleFunc" || links[0].name == "Handle":
+				row("route", recv, str(links[0].args[0]), handlerName(links[0].args[1]))
+			case links[0].name == "PathPrefix" && len(links) >= 2 && links[1].name == "HandlerFunc":
+				row("prefix", recv, str(links[0].args[0]), handlerName(links[1].args[0]))
+			case len(links) == 1 && len(last.args) == 0:
+				row("opt", recv, last.name, "")
+			}
+		}
+		return fmt.Sprintf("Definition %s : list (string * (string * (string * string))) :=\n  [%s].", it.Coq, strings.Join(rows, ";\n   ")), nil
+	}
+}
+
+func init() {
+	// handler_error_msgs: (name, msg) of the handlerError table
+	customKinds["handler_error_msgs"] = func(it Item) (string, error) {
+		p, err := loadPkg(it.Pkg)
+		if err != nil {
+			return "", err
+		}
+		var rows []string
+		for _, f := range p.files {
+			ast.Inspect(f, func(n ast.Node) bool {
+				vs, ok := n.(*ast.ValueSpec)
+				if !ok {
+					return true
+				}
+				for i, id := range vs.Names {
+					if i >= len(vs.Values) {
+						continue
+					}
+					cl, ok := vs.Values[i].(*ast.CompositeLit)
+					if !ok {
+						continue
+					}
+					if t, ok := cl.Type.(*ast.Ident); !ok || t.Name != "handlerError" || len(cl.Elts) != 5 {
+						continue
+					}
+					if bl, ok := cl.Elts[1].(*ast.BasicLit); ok && bl.Kind == token.STRING {
+						rows = append(rows, fmt.Sprintf("(%s, %s)", coqStr(id.Name), coqStr(unquote(bl.Value))))
+					}
+				}
+				return true
+			})
+		}
+		return fmt.Sprintf("Definition %s : list (string * string) :=\n  [%s].", it.Coq, strings.Join(rows, ";\n   ")), nil
+	}
+}
